@@ -178,7 +178,9 @@ Fixpoint subst (m : list (tx * tx)) (t : tx) : tx :=
 Definition subst_name (m : list (tx * tx)) (n : tx) : tx :=
   match find (fun p => tx_eqb (fst p) n) m with Some p => snd p | None => n end.
 
-Definition with_uu (body : tx) (u : nat) : tx := cat [body; kw "WHERE"; TA (AUu u); kw "="; TA (AUu u)].
+(** the disambiguating filter `'a<n>' = 'a<n>'`: its literal is drawn from the session's counter (it only has to make the
+    CTE's hash name unique within the query) *)
+Definition with_uu (body : tx) (u : nat) : tx := cat [body; kw "WHERE-DEDUP"; TA (ACt u); kw "="; TA (ACt u)].
 
 Record acc := mkAcc {
   a_out : list cte; a_names : list tx; a_map : list (tx * tx); a_j : nat;
@@ -201,18 +203,19 @@ Fixpoint subst_ctr (o n : nat) (t : tx) : tx :=
   | _ => t
   end.
 
-(** [d] supplies the fresh values: the j-th de-duplication uses [d (5 + 2j)] for its uuid literal and [d (6 + 2j)] as the
-    number of the new VALUES alias (a CTE of the modelled programs has at most one inline VALUES source) *)
+(** [d] supplies the fresh values, both counter draws: the j-th de-duplication uses [d (6 + 2(2j))] as the number of the
+    new VALUES alias (a CTE of the modelled programs has at most one inline VALUES source) and [d (6 + 2(2j+1))] for the
+    literal of its disambiguating filter *)
 Definition add_cte (d : nat -> nat) (a : acc) (c : cte) : acc :=
   let c1 := mkCte (subst_name (a_map a) (c_name c)) (c_br c) (c_sq c) (c_cols c) (subst (a_map a) (c_body c)) in
   if mem_tx (c_name c1) (a_names a) then
     let body1 := match first_ctr (c_body c1) with
-                 | Some o => subst_ctr o (d (6 + 2 * a_j a)) (c_body c1)
+                 | Some o => subst_ctr o (d (6 + 2 * (2 * a_j a))) (c_body c1)
                  | None => c_body c1 end in
-    let body' := with_uu body1 (d (5 + 2 * a_j a)) in
+    let body' := with_uu body1 (d (6 + 2 * (2 * a_j a + 1))) in
     mkAcc (a_out a ++ [mkCte body' (c_br c1) (c_sq c1) (c_cols c1) body']) (body' :: a_names a)
           ((c_name c1, body') :: a_map a) (S (a_j a)) (Some body')
-          (match first_ctr (c_body c1) with Some _ => S (a_nctr a) | None => a_nctr a end)
+          (match first_ctr (c_body c1) with Some _ => S (S (a_nctr a)) | None => S (a_nctr a) end)
   else mkAcc (a_out a ++ [c1]) (a_names a) (a_map a) (a_j a) (Some (c_name c1)) (a_nctr a).
 
 Definition add_ctes (d : nat -> nat) (existing new : list cte) : acc :=
